@@ -874,6 +874,36 @@ def rule_gate(ctx, rep):
                         rep.ok("R-GATE", ik, cfg=tag)
                     else:
                         rep.bad("R-GATE", ik, "%s in %s is reachable from the function entry without passing the true edge of the uniqueness test on the same handle (and without the handle having been replaced by a fresh allocation): mutable access would be handed out while other owners exist" % (prod, b["key"]), loc, tag)
+            # a `&mut` to the *whole block* (count word included) conjured from a handle's pointer: `self.p.as_mut()` - exclusive access
+            # to memory that other owners read and whose count other threads update
+            for bi, t in B.calls():
+                path = atomics.callee_of(t) or ""
+                if path != "<core::ptr::non_null::NonNull<T>>::as_mut" or not t.get("arg_tys"):
+                    continue
+                at = F.ty(F.strip_refs(t["arg_tys"][0]))
+                if not (at["k"] == "adt" and at["path"] == "core::ptr::non_null::NonNull" and F.is_adt(at["args"][0]["t"], F.inner_path)):
+                    continue
+                nprod += 1
+                ik = "%s/mut-block-borrow" % b["key"]
+                pl = operand_place(t["args"][0])
+                o = B.origin(t["args"][0])
+                src = o["rv"]["place"] if o.get("kind") == "rvalue" and o["rv"]["k"] in ("ref", "rawptr") else (o.get("place") if o.get("kind") == "place" else None)
+                if src is not None and (_fresh_pointer(F, E, B, src) or _through_unique(F, B, src, set())):
+                    rep.ok("R-GATE", ik, "fresh allocation / sole owner by type", cfg=tag)
+                    continue
+                if pl is not None and _fresh_pointer(F, E, B, {"l": pl["l"], "p": []}):
+                    rep.ok("R-GATE", ik, "fresh allocation", cfg=tag)
+                    continue
+                roots = root_args(B, pl["l"]) if pl is not None else set()
+                if b.get("unsafe") and roots:
+                    rep.ok("R-GATE", ik, "unsafe: obligation stays with the caller", cfg=tag)
+                    continue
+                if cuts is None:
+                    cuts = gate_cuts(F, G, B, E)
+                if roots and _justified(F, E, B, cuts, roots, bi):
+                    rep.ok("R-GATE", ik, cfg=tag)
+                else:
+                    rep.bad("R-GATE", ik, "`NonNull::as_mut()` on a handle's block pointer in %s creates a `&mut` to the whole shared block - count word included - without the handle having been found to be the sole owner: other owners read the value and other threads update the count behind that exclusive reference" % b["key"], F.loc(b, t["span"]), tag)
             # the same re-typing spelled as a call: `(arc as *mut Arc<T>).cast::<UniqueArc<T>>()`
             for bi, t in B.calls():
                 r = t.get("resolved")
@@ -972,6 +1002,7 @@ def run(ctx, rep):
     _c12.union_dispatch(ctx, rep)  # ArcUnion owners are counted on the block of the Arc they were made from (tag arithmetic, per-variant types)
     balance.rule_bal(ctx, rep)
     balance.rule_unw(ctx, rep)
+    balance.rule_racy_assert(ctx, rep, strict=True)  # no assertion about a re-read count that a racing clone or drop can falsify: the operation would panic where it must succeed or decline
     for tag, F, E in ctx.each():
         A = balance.analysis(tag, F, E)
         # ---- decline behaviour and the panicking deprecated writers
@@ -1286,6 +1317,7 @@ def main(argv):
             " Producers also include plain writes into (and drops of) a payload place. Premises added later: C02's release-order rules R-ORD-2/3/6 (whoever observed 1 from its own decrement performs an acquire before touching the value), the ArcUnion dispatch rules (R-TAG, Clone/Drop R-ARMS), `compare_exchange(1, 1, Acquire, _)` in its strong form as a gate. Also decided on configuration arm32."
             ' R-UNIQUE-VIEW: no safe function lends out the shared handle inside a UniqueArc; a clone of a handle reached through a UniqueArc is not a sole owner.'
             ' Round thirteen/fourteen: R-GATE also over `addr_of_mut!` of the payload written through in a safe body; the gate may be `compare_exchange(1, 1, Acquire, Relaxed).is_ok()`; R-PANIC-DECLINE accepts writers and helpers whose returns all sit behind an Acquire gate edge; R-PROVENANCE; R-RACY-ASSERT inside R-UNW.'
+            ' Round fifteen: `NonNull::<block>::as_mut()` is a producer of R-GATE (a `&mut` to the whole shared block); strict R-RACY-ASSERT.'
         ),
         rule_text="instances = gate definitions, producers of exclusive access, call sites of unchecked constructors, decline paths",
         trusted_base=["rustc nightly MIR, dominance computed on it", "release/acquire lemma (C02)", "C04: the count word equals the number of owners"],
